@@ -12,8 +12,13 @@
    (d) the following blocks of a response that was not suppressed are not dropped either: a request
        for block k of it (same token, same No-Response value) is answered with that block.
 
-   "The request's No-Response value": a transfer whose datagrams do not all carry the same No-Response
-   option is not judged (the RFCs do not say which one counts); neither is a value longer than 4 bytes.
+   "The request's No-Response value": a response answers ONE request message.  The response the handler sets
+   for a Block1 transfer is the response to the request that carries the final block (RFC 7959 2.5/2.9: the
+   earlier blocks have already been answered, each by its own 2.31 Continue; "the final response" belongs to
+   the final request), and RFC 7967 lets a client express its disinterest per request.  So the value that
+   counts is the one of the datagram being answered -- for an upload the LAST block's, whatever the earlier
+   blocks carried (classes 26/27 when the handler saw another No-Response option than that datagram carries,
+   i.e. when first and last block differ; 21/22 otherwise).  A value longer than 4 bytes is not judged.
    Replies that the block-wise layer produces on its own (2.31 Continue for a block, 4.08) are not
    responses the handler set and are not judged; a 4.08 in place of the handler's response is an error
    of the transfer (e.g. a second transfer under a token still in use), not a No-Response matter. *)
@@ -77,11 +82,12 @@ Definition is_bare_ack (r : owire) (mid : Z) : bool :=
 (* classes: 21 a response of a suppressed class was accepted, 22 a response of a class that was not
    suppressed was refused, 23 a suppressed response (or anything in its place) is on the wire,
    24 a response that was not suppressed is dropped or altered, 25 a following block of a response that
-   was not suppressed is dropped or altered *)
+   was not suppressed is dropped or altered, 26/27 = 21/22 for the last block of an upload whose first block
+   carried another No-Response option (the handler sees the first block's options) *)
 
 (* (a)-(c) *)
 Definition judge_set (e : oreq) (rc : Z) (p : list Z) : N :=
-  if negb (optb_eqb (first_opt (q_opts e) NoResponse) (first_opt (q_hopts e) NoResponse)) then 0%N else
+  let mixed := negb (optb_eqb (first_opt (q_opts e) NoResponse) (first_opt (q_hopts e) NoResponse)) in
   let sup := match first_opt (q_opts e) NoResponse with
              | None => Some false
              | Some bs => if (length bs <=? 4)%nat then Some (spec_suppressed rc (be bs)) else None
@@ -89,14 +95,14 @@ Definition judge_set (e : oreq) (rc : Z) (p : list Z) : N :=
   match sup with
   | None => 0%N
   | Some true =>
-      if negb (q_refused e) then 21%N
+      if negb (q_refused e) then (if mixed then 26%N else 21%N)
       else match q_out e with
            | [] => if q_typ e =? 0 then 23%N else 0%N
            | [r] => if (q_typ e =? 0) && is_bare_ack r (q_mid e) then 0%N else 23%N
            | _ => 23%N
            end
   | Some false =>
-      if q_refused e then 22%N
+      if q_refused e then (if mixed then 27%N else 22%N)
       else match q_out e with
            | [r] =>
                if (ow_code r =? 136) && negb (rc =? 136) then 0%N     (* the layer's own error reply *)
